@@ -240,3 +240,23 @@ def run_history(actions, prop='C02', init=None, chooser=None, n=0):
         prev_copy = (new_copy, obs['post']) if new_copy is not None else None
         steps.append(step)
     return {'kind': 'hist', 'prop': prop, 'init': init_proj, 'steps': steps}
+
+
+def evolve(chooser, n, init=None):
+    """The circuit object reached by n chooser-picked public calls: a circuit with a past, for drivers that observe
+    something else than the mutators themselves.  Only calls that return normally count (a refused call may leave the
+    object half-modified, which no property speaks about): the history stops at the first call that raises and the
+    circuit as it was BEFORE that call is returned."""
+    from cirbo.core.circuit import Circuit
+
+    c = Circuit() if init is None else build(init)
+    for _ in range(n):
+        before = _copy.deepcopy(c)
+        try:
+            act = dict(chooser(c))
+            if act['a'] == 'connect' and 'other' not in act:
+                act['other'] = LIB[act['lib'] - 1]
+            c = apply(c, act)
+        except Exception:
+            return before
+    return c
